@@ -22,6 +22,9 @@ pub assume_specification<T>[ <[T]>::swap ](s: &mut [T], a: usize, b: usize)
     requires a < old(s)@.len(), b < old(s)@.len(),
     ensures final(s)@ == old(s)@.update(a as int, old(s)@[b as int]).update(b as int, old(s)@[a as int]);
 
+/// C19: the known locales are the listed ones and the default (always part of the list, listed or not)
+pub open spec fn known(locales: Seq<Key>, default: Key, k: Key) -> bool { locales.contains(k) || k == default }
+
 // A5 (assumed std contract): `v.iter().position(p)`: the index of the first element p accepts, None when it
 // accepts none (documentation of Iterator::position)
 #[verifier::external_body]
